@@ -44,6 +44,7 @@ var (
 	ErrHealthPortInUse     = errors.New("health port is already in use by listen port")
 	ErrMustNotBeRootPath   = errors.New("must not be root path")
 	ErrMustBeDifferentPath = errors.New("must be different path")
+	ErrInvalidFilter       = errors.New("invalid filter")
 )
 
 // LocalConfigFile is a run.Config that loads the configuration file.
@@ -138,6 +139,11 @@ func mergeAndValidateOIDCConfigs(cfg *configv1.Config) error {
 				oidc := proto.Clone(cfg.DefaultOidcConfig).(*oidcv1.OIDCConfig)
 				proto.Merge(oidc, f.GetOidcOverride())
 				f.Type = &configv1.Filter_Oidc{Oidc: oidc}
+			}
+
+			if f.GetOidc() == nil {
+				// A filter without a type (e.g. `{}`): there is nothing to merge or to default.
+				return fmt.Errorf("%w: filter without a type in chain %q", ErrInvalidFilter, fc.Name)
 			}
 
 			if f.GetOidc().GetConfigurationUri() == "" {
